@@ -65,6 +65,13 @@ func factsC14() {
 	// the generator templates behind them
 	emitBool("f_stub_template_decodes_declared_type", strings.Contains(c14RawText("meta/stub/stub.go", "", "generateStubPropertyCallback"), `property.Type().Unmarshal("buf")`))
 	emitBool("f_proxy_template_checks_signature", strings.Contains(c14RawText("meta/idl/proxy.go", "", "generatePropertyGet"), `if sig != s {`))
+	// the subscriber table behind registerEvent / unregisterEvent (PropertySubs.v: add_user, remove_user, subs_of)
+	emitStr("f_c14_addsignaluser_text", normText("bus/signal.go", "signalHandler", "addSignalUser"))
+	emitStr("f_c14_removesignaluser_text", normText("bus/signal.go", "signalHandler", "removeSignalUser"))
+	emitStr("f_c14_updatesignal_text", normText("bus/signal.go", "signalHandler", "UpdateSignal"))
+	emitStr("f_bomb_signalboom_text", normText("examples/space/space_stub_gen.go", "stubBomb", "SignalBoom"))
+	emitN("f_action_registerevent", c14ActionOf("p.RegisterEvent"))
+	emitN("f_action_unregisterevent", c14ActionOf("p.UnregisterEvent"))
 	emitN("f_action_property", c14ActionOf("p.Property"))
 	emitN("f_action_setproperty", c14ActionOf("p.SetProperty"))
 }
